@@ -125,8 +125,11 @@ func main() {
 		}
 		err = c12.Run(d, res, *seed, thorough, corpus)
 	case "C01":
-		res.Rule = "25 real signatures (0..5 params, with/without context, four result shapes, raw params, custom (Un)Marshaler, custom encoder/decoder pair) x argument and result values from the property's classes (nil pointers, nil vs empty slices/maps, integer extremes, -0, 1e308, HTML/control/multi-byte strings, byte slices, raw JSON, unserialisable values) x {custom, http, ws} x 5 formatters; distinct = (method, transport, formatter, values, class); non-trivial = the handler was reached"
+		res.Rule = "25 real signatures (0..5 params, with/without context, four result shapes, raw params, custom (Un)Marshaler, custom encoder/decoder pair) x argument and result values from the property's classes (nil pointers, nil vs empty slices/maps, integer extremes, -0, 1e308, HTML/control/multi-byte strings, byte slices, raw JSON, unserialisable values) x {custom, http, ws} x 5 formatters; plus 12 (thorough 24) goroutines calling concurrently through one client per transport with arguments only they use, the handler echoing what it received; distinct = (method, transport, formatter, values, class); non-trivial = the handler was reached"
 		err = c01.Run(d, res, *seed, n(4000, 60000))
+		if err == nil && *replay == "" {
+			err = c01.RunConcurrent(res, *seed, thorough)
+		}
 	case "C02":
 		res.Rule = "N concurrent blocked calls released in a chosen completion order: every permutation for N <= 3 (4 and 5: sampled in quick / all resp. 40 in thorough), random orders for N in 6..25; seed-driven delays at registration, write, lookup, delivery and delete; each call must return exactly its own token and be executed once; the client endpoint's hook trace is replayed through Jrpc.Corr; plus an HTTP server answering with foreign / mistyped / missing ids; distinct = (N, order)"
 		err = corr.Concurrent(d, res, *seed, thorough)
